@@ -653,7 +653,7 @@ def load_seeds(info):
     return db["seeds"], None
 
 
-def scan_seeds(info, labels, log, limit=400):
+def scan_seeds(info, labels, log, limit=400, pred_limit=120):
     """compare both trees of the given labels ("process.label") on the stored reachable states standing at them, over all
     small choice vectors; then on the one-step successors (TLA+ model, every small choice vector) of the seeds standing at
     another label of the same process. -> (n states scanned, [mismatch dicts], note)"""
@@ -661,9 +661,10 @@ def scan_seeds(info, labels, log, limit=400):
     seeds, note = load_seeds(info)
     sel = [(i, s, None) for i, s in enumerate(seeds) if s["label"] in labels][:limit]
     procs = {l.split(".", 1)[0] for l in labels}
+    # one-step lookahead from the deepest stored states (any seed: some instance of the process usually stands at another label)
+    deep = sorted(range(len(seeds)), key=lambda i: -len(seeds[i]["sched"]))[:pred_limit]
     for lab in labels:
-        pr = lab.split(".", 1)[0]
-        sel += [(i, s, lab) for i, s in enumerate(seeds) if s["label"] not in labels and s["label"].split(".", 1)[0] == pr][:limit]
+        sel += [(i, seeds[i], lab) for i in deep]
     if not sel:
         return 0, [], note
     e = ensure_walkdefs(info, log)
@@ -686,7 +687,7 @@ def scan_seeds(info, labels, log, limit=400):
             if target is None:
                 rows.append('scan_seed (%s_W %d) "%s" "%s" sd%d "%d"' % (name, sd["cset"], proc, lbl, i, i))
             else:
-                rows.append('scan_pred (%s_W %d) "%s" "%s" "%s" sd%d "%d"' % (name, sd["cset"], proc, lbl, target.split(".", 1)[1], i, i))
+                rows.append('scan_pred (%s_W %d) "%s" "%s" sd%d "%d"' % (name, sd["cset"], target.split(".", 1)[0], target.split(".", 1)[1], i, i))
         body.append("Definition R := Eval vm_compute in filter (fun s => negb (String.eqb s \"\")) [%s].\nPrint R.\n" % ";\n ".join(rows))
         rc, out, err = coq_scratch("C02_seeds_%s_%d" % (name, os.getpid()), "".join(body), timeout=900)
         if rc != 0:
